@@ -1548,7 +1548,8 @@ class Model:
             cache = self._create_cache()
         args = self.get_args(variables=variables, time=time)
 
-        stoich = copy.deepcopy(cache.stoich_by_cpds[variable])
+        # A variable no reaction touches has no entry
+        stoich = copy.deepcopy(cache.stoich_by_cpds.get(variable, {}))
         for rxn, derived in cache.dyn_stoich_by_cpds.get(variable, {}).items():
             stoich[rxn] = float(
                 derived.fn(*self._coefficient_args(args, derived.args))
